@@ -115,6 +115,17 @@ CHECKS['C04'] = dict(
     note=TB + "sympy trusted. The statistics themselves (averaging over the draw) are argued from these conditions, not sampled.",
     tech="static analysis: symbolic per-pair transformer extraction (K-ABS × K-SYM), boolean truth table of the outcome formula, call-site coverage")
 
+CHECKS['C03'] = dict(
+    text="Inductive invariants decided from the source for every history: allocation algebra (2·size, index-for-index copy, zero second "
+         "half, single count increment, initial [1]); norm preservation of each operation (unitary matrices by K-SYM, measure/reset scale "
+         "the kept branch by 1/√p_kept with p_kept accumulated under the keep guard); division safety of every floating-point division "
+         "in the simulator (constant, dominating positivity guard, or the checked premise set of measure); qubit-index ownership "
+         "(who-may-call / who-writes on allocator, free list, release); and the no-foreign-qubit-in-fields typestate over every write "
+         "into object field storage. Three write sites genuinely violate the last rule (reproduced; listed as known findings).",
+    note=TB + "sympy trusted. Not decided: norm within tolerance over long histories (floating point). Known findings: qubit aliasing through "
+         "object fields (member assignment, bare-name field assignment, field initialiser) — see known_findings.txt.",
+    tech="static analysis: symbolic folding of the allocation/renormalisation algebra, guard dominance for divisors, who-may-call and who-writes ownership rules, typestate over field-write sites")
+
 NOT_YET = "check not yet built in this round (framework under construction; see DESIGN.md §4 for the planned static rules)"
 
 
